@@ -1148,7 +1148,12 @@ func (x *Exec) checkFrame(exit, pre *State, c *Contract, pos token.Pos) {
 		a := exit.heap[k]
 		o, ok := pre.heap[k]
 		if !ok {
-			o = x.b.Var("H0."+k, a.Sort)
+			if len(pre.pending) > 0 && a.Sort.Kind == SArray && a.Sort.Idx == RefSort {
+				// first read after a havoc: the array the entry state would see
+				o = x.heapArr(pre, k, a.Sort.Elem)
+			} else {
+				o = x.b.Var("H0."+k, a.Sort)
+			}
 		}
 		eq := x.b.Eq(a, o)
 		if !eq.IsTrue() {
